@@ -33,7 +33,7 @@ def makers(ctx):
     out.append(("6R@identity", lambda: (zoo.build(s6, np.eye(4)), s6, np.eye(4))))
     b1 = zoo.rand_pose(rng, 2.0)
     out.append(("6R@random-base", lambda: (zoo.build(s6, b1), s6, b1)))
-    for n in ((3,) if ctx.quick else (1, 2, 3, 4, 5, 7)):
+    for n in ((1 + ctx.seed % 2, 3 + ctx.seed % 3, 7) if ctx.quick else (1, 2, 3, 4, 5, 7)):     # quick: a small, a middle and a redundant chain
         sp = zoo.spec_random(rng, n)
         bb = zoo.rand_pose(rng, 1.5)
         out.append(("%s@random-base" % sp["name"], lambda sp=sp, bb=bb: (zoo.build(sp, bb), sp, bb)))
